@@ -17,7 +17,8 @@ from mc import runner, fakegame  # noqa: E402
 from mc.driver import MachineDriver  # noqa: E402
 from mc.explore import bfs  # noqa: E402
 
-PROGRESS = ["score_ev", "lives_ev", "hit_cnt", "acc_a", "hit_sh", "sh_off", "ach_enable", "ach_start", "ach_complete", "tm_add"]
+PROGRESS = ["score_ev", "lives_ev", "hit_cnt", "acc_a", "hit_sh", "sh_off", "ach_enable", "ach_start", "ach_complete", "tm_add",
+            "tm_start", "tm_pause"]
 INITIAL = {"lives": 3, "score": 0}
 
 
@@ -34,7 +35,7 @@ def plain(v):
 
 class PlayerDriver(MachineDriver):
     machine_name = "c11"
-    time_horizon = 2.0
+    time_horizon = 3.0
 
     def setup(self):
         fakegame.install(self.m)
@@ -49,6 +50,16 @@ class PlayerDriver(MachineDriver):
         m.events.add_handler("mode_gm_started", self._gm_started, priority=-1000)
         self.games = 0
         m.events.add_handler("game_started", self._game_started)
+        # reference for the timer: it only runs when started during the current ball (start_running is off)
+        self.tm_running = False
+        self.tm_resume_at = None
+        m.events.add_handler("ball_will_end", self._tm_reset, priority=9999)
+        m.events.add_handler("mode_gm_started", self._tm_reset, priority=-999)
+
+    def _tm_reset(self, **kwargs):
+        self.tm_running = False
+        self.tm_resume_at = None
+        self.tm_epoch = getattr(self, "tm_epoch", 0) + 1
 
     def _on_var(self, _v, **kwargs):
         self.varlog.append((_v, kwargs.get("value"), kwargs.get("prev_value"), kwargs.get("change"), kwargs.get("player_num")))
@@ -80,9 +91,11 @@ class PlayerDriver(MachineDriver):
             return {}
         return {p.number: {k: plain(v) for k, v in p.vars.items()} for p in g.player_list if p is not g.player}
 
+    focus = None        # restrict the alphabet (a deeper search over fewer operations)
+
     def ops(self):
-        out = [[e] for e in PROGRESS]
-        out += [["drain"], ["start"], ["end_game"]]
+        out = [[e] for e in (self.focus or PROGRESS)]
+        out += [["drain"], ["start"]] + ([] if self.focus else [["end_game"]])
         return out
 
     def do_op(self, op):
@@ -94,7 +107,15 @@ class PlayerDriver(MachineDriver):
         self.before_vals = {v: g.player[v] for v in ("score", "lives")} if g and g.player else None
         self.varlog_mark = len(self.varlog)
         self.turn_op = False
+        self.tick_before = g.player["gm_tm_tick"] if g and g.player else None
         if k in PROGRESS:
+            if g and g.player and m.modes["gm"].active:
+                if k == "tm_start":
+                    self.tm_running = True
+                    self.tm_resume_at = None
+                elif k == "tm_pause":
+                    self.tm_running = False
+                    self.tm_resume_at = self.loop.time() + 2.0
             m.events.post(k)
             self.turn_op = True
             if g and len(g.player_list) > 1:
@@ -110,6 +131,23 @@ class PlayerDriver(MachineDriver):
         elif k == "end_game":
             if g:
                 fakegame.end_game(self.sys, 0.2)
+
+    def _step(self, choice):
+        if choice in ("T", "T+", "H"):
+            g = self.m.game
+            self.before_others = self.others()
+            self.before_player = g.player.number if g and g.player else None
+            self.before_vals = {v: g.player[v] for v in ("score", "lives")} if g and g.player else None
+            self.varlog_mark = len(self.varlog)
+            self.turn_op = True         # time passing during a turn must not touch the other players either
+            self.tick_before = g.player["gm_tm_tick"] if g and g.player else None
+            self.tm_was_running = self.tm_running or (self.tm_resume_at is not None)
+            self.epoch_before = getattr(self, "tm_epoch", 0)
+        super()._step(choice)
+        if choice in ("T", "T+", "H"):
+            if self.tm_resume_at is not None and self.loop.time() >= self.tm_resume_at - 1e-6:
+                self.tm_running = True
+                self.tm_resume_at = None
 
     def oracle(self, choice):
         m = self.m
@@ -137,6 +175,13 @@ class PlayerDriver(MachineDriver):
                     self.stat("var_events_checked")
                 elif mine:
                     self.violate("var-event-spurious:%s" % var, "player_%s event %r without a change" % (var, mine))
+        # (1b) the current player's timer only ticks when it was started (or resumes from a pause) during this ball
+        if k in ("T", "T+", "H") and g and g.player and g.player.number == self.before_player and \
+                self.tick_before is not None and g.player["gm_tm_tick"] > self.tick_before and not self.tm_was_running and \
+                self.epoch_before == getattr(self, "tm_epoch", 0):
+            self.violate("timer-ticks-unstarted", "player %d's timer ticks changed from %s to %s although the timer was not started "
+                         "during this ball (a pause from an earlier turn resumed it?)" %
+                         (g.player.number, self.tick_before, g.player["gm_tm_tick"]))
         # (2) restoration when a player's next ball starts
         if self.pending_restore is not None and g and g.player and m.modes["gm"].active and \
                 g.player.number == self.pending_restore:
@@ -166,6 +211,8 @@ class PlayerDriver(MachineDriver):
         players = tuple(tuple(sorted((k, repr(plain(v))) for k, v in p.vars.items())) for p in g.player_list) if g else None
         return (players, g.player.number if g and g.player else None, g.balls_in_play if g else None, g.ending if g else None,
                 tuple(sorted((n, repr(sorted(v.items()))) for n, v in self.ball_end_view.items())), self.pending_restore,
+                self.tm_running, None if self.tm_resume_at is None else round(self.tm_resume_at - self.loop.time(), 6),
+                bool(m.timers["tm"].running),
                 m.playfield.balls, self.modes_fp(), self.rel_timers(), self.task_fp(), self.games > 1)
 
     def observe(self):
@@ -174,25 +221,36 @@ class PlayerDriver(MachineDriver):
                 "players": {p.number: {"score": p["score"], "lives": p["lives"], "ball": p["ball"]} for p in g.player_list} if g else None}
 
 
+class TimerFocus(PlayerDriver):
+    """Deeper search over the timer's operations only (timed pause, ticks across turns)."""
+    focus = ["tm_start", "tm_pause", "tm_add"]
+
+
 def body(ctx):
     quick = ctx.tier == "quick"
-    res = bfs(PlayerDriver, 7 if quick else 8, observe=True)
-    for s in res.samples[:3]:
-        ctx.sample(s)
-    for sig, (what, hist) in res.violations.items():
-        ctx.violation(sig, what, {"history": hist})
-    for k, v in res.stats.items():
-        ctx.guard(k, v)
-    ctx.add(states=res.states, transitions=res.transitions, traces_validated_against_impl=res.transitions,
-            levels=res.levels, exhaustive=True)
+    states = trans = 0
+    levels = {}
+    for name, drv, depth in (("all", PlayerDriver, 6 if quick else 7), ("timer", TimerFocus, 9 if quick else 11)):
+        res = bfs(drv, depth, observe=True)
+        states += res.states
+        trans += res.transitions
+        levels[name] = res.levels
+        for s in res.samples[:2]:
+            ctx.sample({"search": name, **s})
+        for sig, (what, hist) in res.violations.items():
+            ctx.violation(sig, what, {"search": name, "history": hist})
+        for k, v in res.stats.items():
+            ctx.guard(k, v)
+    ctx.add(states=states, transitions=trans, traces_validated_against_impl=trans, levels=levels, exhaustive=True)
     ctx.assume("3 players x 2 balls, fake game; one game mode with persisted counter/accrual, shot with 3-state profile, "
                "achievement (restart/enable on next ball configured), timer, variable_player; timer ticks are checked for "
-               "isolation only (the timer restarts from its start value with the mode)", "BFS depth 7 (quick) / 8 (thorough)")
+               "isolation only (the timer restarts from its start value with the mode)",
+               "BFS depth 6 (quick) / 7 (thorough) over all operations plus depth 9 / 11 over the timer operations only")
     return ("progress_with_other_players", "drains", "var_events_checked", "restorations_checked", "first_balls_checked")
 
 
 def replay(ctx, data):
-    d = PlayerDriver()
+    d = (TimerFocus if data["replay"].get("search") == "timer" else PlayerDriver)()
     d.boot()
     for c in data["replay"]["history"]:
         d.step(c)
